@@ -109,6 +109,15 @@ func vYield() {
 	synctest.Wait()
 }
 
+// vLiveGoroutines: goroutines started by the harness that are still alive once everything else has run as
+// far as it can (engine: interpreter threads; natively: the runtime's count against the baseline at start).
+func vLiveGoroutines() int {
+	vYield()
+	return runtime.NumGoroutine() - vGoBase
+}
+
+var vGoBase int
+
 func vOpt(name string, v int)   {}
 func vTimerPending(t *time.Timer) bool { return true }
 func vTimerRemaining(t *time.Timer) time.Duration { return 0 }
@@ -117,6 +126,7 @@ func vFire(t *time.Timer) bool  { return false }
 // vRunReplay runs one harness natively on a vector and reports the outcome on stdout.
 func vRunReplay(entry string, vec []uint64, kinds []string) (outcome string) {
 	vVec, vKinds, vPos, vCovers, vExpected = vec, kinds, 0, nil, ""
+	vGoBase = runtime.NumGoroutine()
 	f := vHarness[entry]
 	if f == nil {
 		return "VREPLAY error=unknown-harness"
